@@ -327,6 +327,10 @@ def support_code(case):
     """what the documentation asks the consumer to supply: custom scalar types and external enums"""
     sup = case.get("support") or {}
     out = []
+    if case.get("hostile_scope"):
+        # what many crates have at module level: their own `Result` alias (and an `Error` to go with it). The generated module
+        # does `use super::*`, so these names are in its scope too
+        out.append("pub type Result<T> = ::std::result::Result<T, Error>;\n#[derive(Debug)]\npub struct Error;\n")
     mod = sup.get("scalars_module")
     sc = sup.get("scalars") or {}
     body = "".join("pub type %s = %s;\n" % (n, t) for n, t in sorted(sc.items()))
@@ -345,9 +349,9 @@ def support_code(case):
             continue
         # a hand-written enum with the reference wire behaviour
         out.append("#[derive(Debug, Clone, PartialEq, Eq)]\npub enum %s { %s Other(String) }\n" % (en, " ".join("V%d," % i for i in range(len(vals)))))
-        out.append("impl serde::Serialize for %s { fn serialize<S: serde::Serializer>(&self, s: S) -> Result<S::Ok, S::Error> { s.serialize_str(match self { %s %s::Other(o) => o.as_str() }) } }\n"
+        out.append("impl serde::Serialize for %s { fn serialize<S: serde::Serializer>(&self, s: S) -> ::std::result::Result<S::Ok, S::Error> { s.serialize_str(match self { %s %s::Other(o) => o.as_str() }) } }\n"
                    % (en, " ".join("%s::V%d => %s," % (en, i, json.dumps(v)) for i, v in enumerate(vals)), en))
-        out.append("impl<'de> serde::Deserialize<'de> for %s { fn deserialize<D: serde::Deserializer<'de>>(d: D) -> Result<Self, D::Error> { let s = <String as serde::Deserialize>::deserialize(d)?; Ok(match s.as_str() { %s _ => %s::Other(s) }) } }\n"
+        out.append("impl<'de> serde::Deserialize<'de> for %s { fn deserialize<D: serde::Deserializer<'de>>(d: D) -> ::std::result::Result<Self, D::Error> { let s = <String as serde::Deserialize>::deserialize(d)?; Ok(match s.as_str() { %s _ => %s::Other(s) }) } }\n"
                    % (en, " ".join("%s => %s::V%d," % (json.dumps(v), en, i) for i, v in enumerate(vals)), en))
     return "".join(out)
 
